@@ -537,6 +537,22 @@ func (r *Run) FailEdge(fn *ssa.Function, key string, sp EdgeSpec) {
 	nret := 0
 	for _, bad := range strings.Split(sp.Bad, ",") {
 		s := Sigma{}
+		skip := true
+		for _, k := range bound {
+			v := bad
+			if flipped[k] {
+				v = map[string]string{"<": ">", ">": "<"}[bad]
+				if v == "" {
+					v = bad
+				}
+			}
+			if !r.D.infeasible(found, k, v) {
+				skip = false
+			}
+		}
+		if skip {
+			continue // this value cannot occur (e.g. len(x) < 0)
+		}
 		for _, k := range bound {
 			v := bad
 			if flipped[k] {
